@@ -256,7 +256,10 @@ func (in *inliner) inlinableWith(fd *ast.FuncDecl, obj *types.Func, allowRecover
 	}
 	// a generic function whose body never names its type parameters (they only type the parameters: a
 	// loop over a []T calling a method of T's constraint) reads the same for every instantiation
-	if sig.TypeParams().Len() > 0 {
+	if sig.TypeParams().Len() > 0 && singleExpr(fd) != nil {
+		// a one-expression generic constructor (`func newX[T any](f F) G { return func(…) {…} }`): the
+		// expression reads the same for every instantiation
+	} else if sig.TypeParams().Len() > 0 {
 		namesT := false
 		ast.Inspect(fd.Body, func(n ast.Node) bool {
 			if id, isID := n.(*ast.Ident); isID {
